@@ -613,6 +613,7 @@ def cases(tier, seed):
             out.append(dict(id='peerlen-%s-%s' % (role, total), kind='peerlen', role=role, total=total))
     for role in ('passive', 'active'):
         out.append(dict(id='pop-file-%s' % role, kind='pop-file', role=role))
+        out.append(dict(id='early-final-ack-%s' % role, kind='early-final-ack', role=role))
     for role in ('passive', 'active'):
         for pop_between in (False, True):
             out.append(dict(id='peer-reuse-%s-%s' % (role, pop_between), kind='peer-reuse', role=role, pop_between=pop_between))
@@ -717,6 +718,19 @@ def run_case(case):
     elif case['kind'] == 'refuse':
         note(refusal_run(case['role'], case['variant'], obs), 'refuse', dict(role=case['role'], variant=case['variant']),
              'refuse|%s|%s' % (case['role'], case['variant']))
+    elif case['kind'] == 'early-final-ack':
+        # a final XFER_ACK naming an own bundle that is still waiting in the queue (the C17 history): the signals about that bundle
+        # stay in order - no finished signal ahead of its being sent - and the view drains (idle) in the end
+        from vf.props import c17
+        from vf.oracles import tcpcl_wire as tw
+        import collections
+        obs17 = collections.defaultdict(int)
+        for extra in (1, 2):
+            for flags in (tw.FLAG_END, tw.FLAG_START | tw.FLAG_END):
+                problems17, _oop = c17.run_early_ack(case['role'], extra, flags, obs17)
+                obs['runs'] += 1
+                note([(kind, text) for (kind, text, _d) in problems17 if kind in ('own-transfer', 'raised')], 'early-final-ack',
+                     dict(role=case['role'], extra=extra, flags=flags), 'early-final-ack|%s|%d|%d' % (case['role'], extra, flags))
     elif case['kind'] == 'pop-file':
         note(pop_file_fails_run(case['role'], obs), 'pop-file', dict(role=case['role']), 'pop-file|%s' % case['role'])
     elif case['kind'] == 'peer-reuse':
